@@ -291,6 +291,11 @@ Definition is_readonly_board (bn_security bn_allpost name : list Z) : bool :=
   (cstrcasecmp (fixlen BOARDID_SZ name) (fixlen BOARDID_SZ bn_security) =? 0) ||
   (cstrcasecmp (fixlen BOARDID_SZ name) (fixlen BOARDID_SZ bn_allpost) =? 0).
 
+(* the default board: postpermMsg asks types.Cstrcmp(board.Brdname[:], ptttype.DEFAULT_BOARD) == 0 — the board's name in
+   its 13-byte id field against the name of the default board (a byte slice WITHOUT a terminating NUL: the slice end
+   terminates), as whole C strings, case-sensitive. [dflt] is an input: ptttype.DEFAULT_BOARD is a variable of the code *)
+Definition is_default_board (dflt name : list Z) : bool := cstrcmp (fixlen BOARDID_SZ name) dflt =? 0.
+
 (* SHM->cooldowntime: one packed word per user, addressed by uid.ToUIDInStore() = uid - 1 for EVERY uid of the build
    (1 .. MAX_USERS: 50 in the default build, 2 000 000 with -tags docker). The store is kept as the list of plantings,
    latest first; a word is (cool-down time - now, post counter); a slot never planted holds 0 = long expired *)
@@ -361,11 +366,17 @@ Definition set_readonly (w : winp) (ro : bool) : winp :=
           ro (w_default w) (w_guestpost w) (w_hidden w) (w_restrictedpost w) (w_lvl_violatelaw w) (w_extra0 w) (w_hasextra w)
           (w_overlimit w) (w_cd_expired w) (w_brd_cooldown w) (w_pt_full w) (w_flood w).
 
-Definition run_row_k (ro : option bool)
+Definition set_default (w : winp) (df : bool) : winp :=
+  mk_winp (w_readable w) (w_sysop w) (w_basic w) (w_post w) (w_loginok w) (w_violatelaw w) (w_moderator w) (w_friend w) (w_banned w)
+          (w_readonly w) df (w_guestpost w) (w_hidden w) (w_restrictedpost w) (w_lvl_violatelaw w) (w_extra0 w) (w_hasextra w)
+          (w_overlimit w) (w_cd_expired w) (w_brd_cooldown w) (w_pt_full w) (w_flood w).
+
+Definition run_row_k (ro df : option bool)
                    (op ulevel o18 logindays badpost regbefore inbm fr ban cd_rel pt bsel battr blevel limlogins limbad nuser aexists : Z)
                    (owner_ok : bool) (sattr slevel slimlogins slimbad sban sinbm sfr : Z) : list Z :=
   let w0 := winp_of ulevel (bz o18) (bz inbm) (bz fr) ban cd_rel pt logindays badpost bsel battr blevel limlogins limbad nuser in
-  let w := match ro with None => w0 | Some b => set_readonly w0 b end in
+  let w1 := match ro with None => w0 | Some b => set_readonly w0 b end in
+  let w := match df with None => w1 | Some b => set_default w1 b end in
   let a := mk_aux (bz aexists) (is_owner owner_ok true (bz regbefore)) false false false
                   (has battr BRD_VOTEBOARD) (has battr BRD_NORECOMMEND) false in
   (* CrossPost's source board: the fixture board Note as planted by the src group *)
@@ -380,7 +391,7 @@ Definition run_row_k (ro : option bool)
                         (* the same facts about the source board of a cross-post *)
                         zb (w_readable ws); zb (posting_rules ws); zb (limits_ok ws)]
   else [ST_BADCASE].
-Definition run_row := run_row_k None.
+Definition run_row := run_row_k None None.
 
 (* op 9: a row against a target board chosen by name, under a site configuration naming the read-only system boards.
    The board group's bsel says whether the target is the default board (2) or not (0); read-only comes from the names *)
@@ -388,7 +399,18 @@ Definition name_ok (l : list Z) : bool := bytes_ok l && (1 <=? lenZ l) && (lenZ 
 Definition run_configured (iop : Z) (sec allpost target : list Z)
                           (ulevel o18 logindays badpost regbefore inbm fr ban cd_rel pt bsel battr blevel limlogins limbad nuser aexists aowner : Z) : list Z :=
   if (1 <=? iop) && (iop <=? 5) && name_ok sec && name_ok allpost && name_ok target && ((bsel =? 0) || (bsel =? 2)) && ((aowner =? 0) || (aowner =? 1))
-  then run_row_k (Some (is_readonly_board sec allpost target))
+  then run_row_k (Some (is_readonly_board sec allpost target)) None
+                 iop ulevel o18 logindays badpost regbefore inbm fr ban cd_rel pt bsel battr blevel limlogins limbad nuser aexists (bz aowner) 0 0 0 0 0 0 0
+  else [ST_BADCASE].
+
+(* op 11: a row against a target board that carries the NAME the case chooses (the driver gives a board of the scratch BBS
+   that name, next to the boards the special names belong to). What the rules know about the board through its name —
+   "one of the read-only system boards", "the default board" — is decided from the name: [sec] / [allpost] as configured,
+   [dflt] = ptttype.DEFAULT_BOARD *)
+Definition run_named (iop : Z) (sec allpost dflt target : list Z)
+                     (ulevel o18 logindays badpost regbefore inbm fr ban cd_rel pt bsel battr blevel limlogins limbad nuser aexists aowner : Z) : list Z :=
+  if (1 <=? iop) && (iop <=? 5) && name_ok sec && name_ok allpost && name_ok dflt && name_ok target && (bsel =? 0) && ((aowner =? 0) || (aowner =? 1))
+  then run_row_k (Some (is_readonly_board sec allpost target)) (Some (is_default_board dflt target))
                  iop ulevel o18 logindays badpost regbefore inbm fr ban cd_rel pt bsel battr blevel limlogins limbad nuser aexists (bz aowner) 0 0 0 0 0 0 0
   else [ST_BADCASE].
 
@@ -409,6 +431,9 @@ Definition run_case (args : list (list Z)) : list Z :=
   match args with
   | [[op]; [iop]; sec; allpost; target; [ulevel; o18; logindays; badpost; regbefore]; [inbm; fr; ban; cd_rel; pt]; [bsel; battr; blevel; limlogins; limbad; nuser]; [aexists; aowner]] =>
       if op =? 9 then run_configured iop sec allpost target ulevel o18 logindays badpost regbefore inbm fr ban cd_rel pt bsel battr blevel limlogins limbad nuser aexists aowner
+      else [ST_BADCASE]
+  | [[op]; [iop]; sec; allpost; dflt; target; [ulevel; o18; logindays; badpost; regbefore]; [inbm; fr; ban; cd_rel; pt]; [bsel; battr; blevel; limlogins; limbad; nuser]; [aexists; aowner]] =>
+      if op =? 11 then run_named iop sec allpost dflt target ulevel o18 logindays badpost regbefore inbm fr ban cd_rel pt bsel battr blevel limlogins limbad nuser aexists aowner
       else [ST_BADCASE]
   | [[op]; [iop]; [uid; maxusers]; others; [ulevel; o18; logindays; badpost; regbefore]; [inbm; fr; ban; cd_rel; pt]; [bsel; battr; blevel; limlogins; limbad; nuser]; [aexists; aowner]] =>
       if op =? 10 then run_as_uid iop uid maxusers others ulevel o18 logindays badpost regbefore inbm fr ban cd_rel pt bsel battr blevel limlogins limbad nuser aexists aowner
